@@ -104,7 +104,7 @@ def mechanisms(kind, a, b):
         ms += [("switch-off", "sw1"), ("switch-port-disabled", None)]
     elif kind == "routed":
         if a[0] != b[0]:
-            ms += [("device-off", "r1"), ("port-disabled", "r1")] + [("deny:" + s, "r1") for s in shapes]
+            ms += [("device-off", "r1"), ("port-disabled", "r1")] + [("deny:" + s, "r1") for s in shapes] + [("deny:dst-wildcard-by-request", "r1")]
     else:
         za, zb = ZONE[a], ZONE[b]
         if za != zb:
@@ -291,6 +291,13 @@ def apply_block(run, kind, mech, arg, rng_vals):
         fw = run.nodes["fw"]
         z = ZONE[run.a] if rng_vals[0] % 2 else ZONE[run.b]
         {"external": fw.external_port, "internal": fw.internal_port, "dmz": fw.dmz_port}[z].disable()
+    elif mech == "deny:dst-wildcard-by-request":
+        # the rule is added the way an agent action adds it (request API), and its destination wildcard differs from its source's
+        r = run.nodes[arg]
+        resp = sim.apply_request(["network", "node", arg, "acl", "add_rule", "DENY", "ALL", a_ip, "NONE", "ALL",
+                                  b_ip.rsplit(".", 1)[0] + ".0", "0.0.0.255", "ALL", rng_vals[0] % 3])
+        if resp.status != "success":
+            run.blocked = ("none-at-all",)
     elif mech.startswith("deny:"):
         deny(run.nodes[arg].acl, mech.split(":")[1])
     elif mech.startswith("fwdeny-src:"):
@@ -411,6 +418,6 @@ def run(ck):
                 seen.add(k)
                 take.append(c)
     if ck.quick:
-        take += [c for c in combos if c[3].startswith("cfgdeny") and not c[5] and c not in take]
+        take += [c for c in combos if (c[3].startswith("cfgdeny") and not c[5] or c[3] == "deny:dst-wildcard-by-request") and c not in take]
     for i, (kind, a, b, mech, arg, warm) in enumerate(take):
         one(ck, kind, a, b, mech, arg, warm, ck.seed * 1000 + i)
